@@ -1,4 +1,10 @@
+def _note_inconclusive(run):
+    # time-dependent cases whose updates did not travel are skipped, never reported: say how many
+    if run.inconclusive:
+        run.notes.append("%d case(s) were inconclusive (infrastructure: updates did not travel / setup failed) and carry no verdict" % run.inconclusive)
+
 CHECK = {
+    "extra": [_note_inconclusive],
     "gen": [{"pkg": "extract_c07", "out": "lean/ClusterVerif/Gen/C07.lean"}],
     "suites": [
         suite("auth", "c07", 160, 1600, stdin=True, args=["-suite", "auth"], timeout={"quick": 600, "thorough": 1800}),
